@@ -43,14 +43,14 @@ abbrev Store := String → String → Option ES
 namespace Store
 def empty : Store := fun _ _ => none
 def put (s : Store) (T : String) (e : ES) : Store :=
-  fun T' i => if T' = T ∧ i = e.id then some e else s T' i
+  fun T' i => if T = T' ∧ e.id = i then some e else s T' i
 def del (s : Store) (T id : String) : Store :=
-  fun T' i => if T' = T ∧ i = id then none else s T' i
+  fun T' i => if T = T' ∧ id = i then none else s T' i
 def dropTopic (s : Store) (T : String) : Store :=
-  fun T' i => if T' = T then none else s T' i
+  fun T' i => if T = T' then none else s T' i
 /-- `RestoreTopicNoCopy(T, bucket T of src)` -/
 def loadTopic (s : Store) (T : String) (src : Store) : Store :=
-  fun T' i => if T' = T then src T' i else s T' i
+  fun T' i => if T = T' then src T' i else s T' i
 /-- level of an id on a topic; an absent state is OK -/
 def level (s : Store) (T id : String) : Nat :=
   match s T id with
@@ -91,7 +91,7 @@ def Micro.isTx : Micro → Bool
   | _ => false
 
 def setFlag (f : String → Bool) (T : String) (b : Bool) : String → Bool :=
-  fun T' => if T' = T then b else f T'
+  fun T' => if T = T' then b else f T'
 
 def exec (s : Svc) : Micro → Svc
   | .restoreClosed T =>
@@ -171,7 +171,7 @@ def NMicro.isTx : NMicro → Bool
 
 def nexec (w : World) : NMicro → World
   | .svc m => { w with svc := exec w.svc m }
-  | .setGroup id l => { w with groups := fun i => if i = id then some l else w.groups i }
+  | .setGroup id l => { w with groups := fun i => if id = i then some l else w.groups i }
   | .clearGroups => { w with groups := fun _ => none }
 
 def optLevel : Option ES → Nat
